@@ -119,4 +119,15 @@ let run_ghost () =
     | AnalyzerG.GCase (b, lv, stops) -> Analyzer.any_stops i b = stops) lg);
   out_bool ((match find p.Syntax.p_pb with Some m -> m.Analyzer.m_end | None -> None) = r)
 
-let () = main [("analyze", run_analyze); ("oracle", run_oracle); ("ghost", run_ghost)]
+(* purely semantic facts (the analyzer model is not involved; the fix mask is read and ignored):
+   wf  no_fn_stmt  reach  falls  fall-through-able cases *)
+let run_sem () =
+  let _ = read_fixes () in
+  let p = read_program () in
+  out_bool (Syntax.wfb p);
+  out_bool (Syntax.no_fn_stmtb p);
+  out_list out_int (sorted_ns (SemDecide.prog_reach p));
+  out_bool (SemDecide.prog_can_fall_off p);
+  out_list out_int (sorted_ns (Oracle.sem_fallthrough_cases p))
+
+let () = main [("analyze", run_analyze); ("oracle", run_oracle); ("ghost", run_ghost); ("sem", run_sem)]
